@@ -17,6 +17,24 @@ pub mod tokio {
         pub fn spawn<F: Future>(f: F) -> (h: JoinHandle<F::Output>)
             ensures h@ is Ok ==> f.awaited() && h@->Ok_0 == f@
         { unimplemented!() }
+        // JoinSet: join_next hands out the value of SOME spawned task that ran to completion - completion order is NOT spawn order
+        #[verifier::external_body]
+        #[verifier::reject_recursive_types(T)]
+        pub struct JoinSet<T> { _t: core::marker::PhantomData<T> }
+        impl<T> JoinSet<T> {
+            pub uninterp spec fn may_yield(&self, v: T) -> bool;
+            #[verifier::external_body]
+            pub fn new() -> (r: Self) ensures forall|v: T| !r.may_yield(v) { unimplemented!() }
+            #[verifier::external_body]
+            pub fn spawn<F: Future<Output = T>>(&mut self, f: F)
+                ensures forall|v: T| #[trigger] final(self).may_yield(v) ==> old(self).may_yield(v) || (f.awaited() && v == f@)
+            { unimplemented!() }
+            #[verifier::external_body]
+            pub async fn join_next(&mut self) -> (r: Option<Result<T, JoinError>>)
+                ensures (r matches Some(Ok(v)) ==> old(self).may_yield(v)),
+                        forall|v: T| #[trigger] final(self).may_yield(v) ==> old(self).may_yield(v),
+            { unimplemented!() }
+        }
         #[verifier::external]
         impl<T> core::future::Future for JoinHandle<T> {
             type Output = Result<T, JoinError>;
